@@ -6,11 +6,12 @@ import gen.pmtlib as L
 from gen.pmtlib import fmt_val
 
 PROP = "C14"
-PROOF_FILES = ["Properties/C14.v", "Properties/ModelTie.v"]
+PROOF_FILES = ["Properties/C14.v", "Properties/C13tie.v", "Properties/ModelTie.v"]
 RULE = ("the C06 carrier generator restricted to pointer_field + one PMT section (CRC computed by the Coq model of "
         "ComputeCRC) + stuffing, packetised by the Coq spec (ser.pkts: full / random / tiny chunks, adaptation-field "
         "stuffing, empty-payload packets, trailing all-stuffing packets), crossed with requested PID lists: every subset "
-        "shape (all, one, some, none), reordered, duplicated, absent PIDs, PAT PID 0, the PMT PID, the empty list, the empty "
+        "shape (all, one, some, none), reordered, duplicated, absent PIDs, PAT PID 0, the PMT PID (alone and mixed with absent / "
+        "present / duplicated PIDs: kinds ign-*, pat-and-missing, always generated), the empty list, the empty "
         "packet list; through FilterPMTPacketsToPids (packets, error class, missing-PID list, inputs after the call) and "
         "through NewPMT + RemoveElementaryStreams + Pids + PIDExists. Non-trivial = distinct request on a well-formed "
         "carrier. Carriers with a preceding section, corrupted payloads and packets without payload are fidelity cases.")
@@ -34,7 +35,8 @@ def oracle(c, real, model):
 
 def pid_lists(rng, c, pmt_pid):
     have = [pid for _, pid, _ in c["sec"]["streams"]]
-    absent = [p for p in (5, 17, 8000, 8191, 70000, rng.randrange(1, 8192)) if p not in have and p != pmt_pid]
+    # 8 and 9 are never requested: bin/check treats a reply containing "[8]" / "[9]" (here: a one-element missing-PID list) as a protocol error
+    absent = [p for p in (5, 17, 8000, 8191, 70000, rng.randrange(10, 8192)) if p not in have and p != pmt_pid]
     out = [("empty", []), ("all", list(have)), ("all-reversed", list(reversed(have)))]
     if have:
         out.append(("one", [rng.choice(have)]))
@@ -51,6 +53,16 @@ def pid_lists(rng, c, pmt_pid):
     out.append(("only-pmt-pid", [pmt_pid]))
     out.append(("pat-and-missing", [0, absent[0]]))
     out.append(("pat-pmt-dup", [0, 0, pmt_pid]))
+    # the PAT / PMT PID mixed with absent, present and duplicated PIDs (audit 1 item 3; /repo 4841ed3): the ignored PIDs must
+    # not count when deciding "none of the requested PIDs is in the PMT"
+    out.append(("ign-pmt-and-absent", [pmt_pid, absent[0]]))
+    out.append(("ign-absent-then-pat", [absent[0], 0]))
+    out.append(("ign-both-and-absent-dup", [0, absent[0], pmt_pid, absent[0]]))
+    out.append(("ign-both-and-two-absent", [pmt_pid, absent[0], 0, absent[-1]]))
+    if have:
+        out.append(("ign-pat-present-absent", [0, have[0], absent[0]]))
+        out.append(("ign-pmt-present-dup", [pmt_pid, have[-1], have[-1], pmt_pid]))
+        out.append(("ign-pat-dup-present-absent-dup", [0, 0, have[0], absent[0], absent[0], have[0]]))
     return out
 
 
@@ -83,20 +95,25 @@ def gen(rng, tier):
             continue
         choices = pid_lists(rng, c, pid)
         if quick:
-            keep = [x for x in choices if x[0] in ("empty", "all")] + rng.sample(choices, min(6, len(choices)))
+            keep = [x for x in choices if x[0] in ("empty", "all", "pat-and-missing") or x[0].startswith("ign-")] + \
+                   rng.sample(choices, min(6, len(choices)))
         else:
             keep = choices
         for kind, want in keep:
             th = "C14_filter_spec" if kind in ("all", "all-reversed", "one", "subset", "subset-dup", "with-pat-pmt") else \
-                 "C14_filter_empty_pids" if kind == "empty" else "C14_filter_errors"
+                 "C14_filter_empty_pids" if kind == "empty" else \
+                 "C14_filter_errors_only_pat_pmt_pid" if kind in ("only-pat", "only-pmt-pid", "pat-pmt-dup") else \
+                 "C14_filter_errors_none_present" if kind in ("none", "none-dup", "pat-and-missing", "ign-pmt-and-absent",
+                                                              "ign-absent-then-pat", "ign-both-and-absent-dup",
+                                                              "ign-both-and-two-absent") else "C14_filter_errors_some_present"
             line = "pmt.filter %s %s" % (pl_req, fmt_val(want))
             spec_req.append((line, "spec.filter %d %s %d %s %s" % (c["pf"], fmt_val(L.fmt_section(c["sec"])), pid,
                                                                   fmt_val(items), fmt_val(want))))
             out.append(Case(line, kind="filter-" + kind, theorem=th))
         have = [x for _, x, _ in c["sec"]["streams"]]
         for _ in range(2):
-            rm = [rng.choice(have + [9, 8000]) for _ in range(rng.randrange(0, 4))]
-            qs = have + [9, 0, 8000]
+            rm = [rng.choice(have + [7, 8000]) for _ in range(rng.randrange(0, 4))]
+            qs = have + [7, 0, 8000]
             out.append(Case("pmt.remove %s %s %s" % (hx(p), fmt_val(rm), fmt_val(qs)), kind="remove",
                             theorem="C14_remove_streams"))
     for (line, _), exp in zip(spec_req, vlib.run_model([r for _, r in spec_req])):
@@ -130,7 +147,7 @@ def gen(rng, tier):
     for (c, mode), pl in zip(fmeta, vlib.run_model(flines)):
         pl_req = pl.replace("[", "[ ").replace("]", " ]")
         have = [x for _, x, _ in c["sec"]["streams"]]
-        want = have[:2] + [0] if rng.random() < 0.7 else [9]
+        want = have[:2] + [0] if rng.random() < 0.7 else [7]
         out.append(Case("pmt.filter %s %s" % (pl_req, fmt_val(want)), kind="fid-" + mode, decides=False, nontrivial=False))
         # a packet of another PID inside the list (the filter concatenates every payload it is given)
         toks = pl_req.split()
